@@ -44,7 +44,8 @@ def gen_session(rng, n_ops, finding_stream=False):
                 sup = rng.choice(sh.order)
             else:
                 sup = rng.choice(["uima.cas.IntegerArray", "uima.cas.StringArray", "no.such.Type", "Token", "A", "Annotation",
-                                  "TOP", "Sofa", "uima.cas.FSArray", "uima.cas.String"])
+                                  "TOP", "Sofa", "uima.cas.FSArray", "uima.cas.String", "IntegerArray", "StringArray",
+                                  "ByteArray", "FSArray"])
             if finding_stream and rng.random() < 0.3:
                 name = rng.choice(sorted(sh.K["predefined"]))
             if name in sh.K["predefined"] and not finding_stream:
